@@ -1130,6 +1130,55 @@ func wlMisc(inst int) string {
 	return dig(out...)
 }
 
+// wlSetsNoSync: the same idea as wlHashTablesNoSync for package set — stable and sorted sets with their whole algebra
+// (their iteration does not shuffle), the unordered set only through the methods that do not iterate through All()
+// (All() takes the package-level shuffle mutex).
+func wlSetsNoSync(inst int) string {
+	r := &sm{s: uint64(9000 + inst)}
+	eq := generic.NewEqualFunc[int]()
+	cmp := generic.NewCompareFunc[int]()
+	even := func(x int) bool { return x%2 == 0 }
+	var out []string
+	u := set.New(eq)
+	for i := 0; i < 300; i++ {
+		u.Add(r.intn(400)+inst, r.intn(400))
+		if i%4 == 3 {
+			u.Remove(r.intn(400))
+		}
+	}
+	hits := 0
+	for i := 0; i < 400; i += 3 {
+		if u.Contains(i) {
+			hits++
+		}
+	}
+	c := u.Clone()
+	sel := u.SelectMatch(even)
+	pa, pb := u.PartitionMatch(even)
+	fm, fok := c.FirstMatch(func(x int) bool { return x > 1<<30 })
+	out = append(out, fmt.Sprint("u", u.Size(), hits, c.Size(), u.Equal(c), sel.Size(), pa.Size(), pb.Size(), u.AnyMatch(even), u.AllMatch(even), fm, fok))
+	for mi, m := range []func(v ...int) set.Set[int]{
+		func(v ...int) set.Set[int] { return set.NewStable(eq, v...) },
+		func(v ...int) set.Set[int] { return set.NewSorted(cmp, v...) },
+	} {
+		a, b := m(), m()
+		for i := 0; i < 120; i++ {
+			a.Add(r.intn(150) + inst)
+			b.Add(r.intn(150) + 2*inst)
+			if i%5 == 4 {
+				a.Remove(r.intn(150))
+			}
+		}
+		un, in, df := a.Union(b), a.Intersection(b), a.Difference(b)
+		sum := 0
+		for x := range un.All() {
+			sum += x
+		}
+		out = append(out, fmt.Sprint("m", mi, a.Size(), b.Size(), un.Size(), in.Size(), df.Size(), sum, in.IsSubset(a), un.IsSuperset(b), a.Equal(a.Clone())))
+	}
+	return dig(out...)
+}
+
 // wlHashTablesNoSync: mutators and point queries only — Put (growth well past the first resizes), Get, Delete (shrinks), Size.
 // No All()/String()/Equal(): those take the package-level shuffle mutex, and a lock that both goroutines happen to pass
 // orders everything before it in one goroutine before everything after it in the other, which hides a race on
@@ -1194,4 +1243,5 @@ var workloads = []workload{
 	{"misc", "own queues/stacks, graphs (traversals, components, topological order, DOT), two-buffer input reader", wlMisc},
 	{"automata", "own NFA: subset construction, minimisation, dead-state elimination, reindexing, combinators", wlAutomata},
 	{"hashtables-nosync", "grow and shrink own hash tables with Put/Get/Delete only (no call that takes a package-level lock)", wlHashTablesNoSync},
+	{"sets-nosync", "own stable/sorted sets with their whole algebra, unordered sets without All() (no call that takes a package-level lock)", wlSetsNoSync},
 }
